@@ -164,3 +164,114 @@ class MustFact:
         if v is None:
             return None
         return self._through(bid, v, upto=idx)
+
+
+def fact_reach(fn, starts, barriers=(), init_facts=(), within=None, budget=200000):
+    """Blocks reachable from `starts` without entering `barriers`, following only branch outcomes consistent with the zero /
+    non-zero facts established by the branches already taken on the path (a fact is about the C-like text of the tested
+    expression; it is dropped when a variable it mentions is written, and facts about memory reached through pointers are
+    dropped at any store through a pointer and at calls).  Returns {block id: one trail of block ids leading to it}.
+    `within`: optional set of block ids the search must stay inside.  init_facts: iterable of (expression text, is_zero)."""
+    import re as _re
+    from .facts import show
+    from . import loops as _loops
+
+    def key_of(e):
+        e = strip(e)
+        return show(e) if isinstance(e, dict) else None
+
+    def branch_fact(cnd):
+        holder = {}
+
+        def pred(e):
+            k = key_of(e)
+            if k is not None and e.get("k") in ("ref", "un", "index", "member"):
+                holder["k"] = k
+                return True
+            return False
+        z = zero_test(cnd, pred)
+        if z is None or "k" not in holder:
+            return None
+        return holder["k"], z
+
+    kcache = {}
+
+    def kills(b):
+        r_ = kcache.get(b.id)
+        if r_ is None:
+            ws, through, called = set(), False, False
+            for r in b.roots:
+                rd, wr, calls, dw, dr = _loops.rw(r)
+                ws |= set(wr)
+                through = through or dw
+                called = called or bool(calls)
+            r_ = kcache[b.id] = (ws, through, called)
+        return r_
+
+    def mentions(key, var):
+        return _re.search(r"\b%s\b" % _re.escape(var), key) is not None
+
+    barriers = set(barriers)
+    found = {}
+    seen = set()
+    stack = [(s, frozenset(init_facts), (s,)) for s in starts if s is not None]
+    steps = 0
+    while stack:
+        bid, facts, trail = stack.pop()
+        steps += 1
+        if steps > budget:
+            raise Exception("fact_reach: budget exceeded in %s" % fn.name)
+        if (bid, facts) in seen:
+            continue
+        seen.add((bid, facts))
+        if within is not None and bid not in within:
+            continue
+        if bid not in found:
+            found[bid] = trail
+        if bid in barriers:
+            continue
+        b = fn.blocks[bid]
+        ws, through, called = kills(b)
+        if facts:
+            roots_w = {w.lstrip("*(").split("->")[0].split(".")[0].split("[")[0] for w in ws}
+            facts = frozenset((k, v) for (k, v) in facts
+                              if not any(mentions(k, w) for w in roots_w)
+                              and not ((through or called) and ("*" in k or "[" in k or "->" in k)))
+        cnd = cond_of(fn, b) if len(b.succs) == 2 else None
+        bf = branch_fact(cnd) if cnd is not None else None
+        for idx, s in enumerate(b.succs):
+            if s is None:
+                continue
+            f2 = facts
+            if bf is not None:
+                k, zero_on = bf
+                is_zero = (idx == 0) == (zero_on == "true")
+                known = dict(facts).get(k)
+                if known is not None and known != is_zero:
+                    continue
+                f2 = facts | {(k, is_zero)}
+            stack.append((s, f2, trail + (s,)))
+    return found
+
+
+def exclusive(fn, b1, b2):
+    """True when blocks b1 and b2 lie on alternative branches: neither reaches the other once loop back edges are removed."""
+    from . import loops as _loops
+    dag = getattr(fn, "_dag_reach", None)
+    if dag is None:
+        back = set()
+        for lp in _loops.natural_loops(fn):
+            for t in lp.tails:
+                for idx, s_ in enumerate(fn.blocks[t].succs):
+                    if s_ == lp.header:
+                        back.add((t, idx))
+        dag = fn._dag_reach = {"back": back, "cache": {}}
+    def fwd(b):
+        r = dag["cache"].get(b)
+        if r is None:
+            r = dag["cache"][b] = reach(fn, [b], (), dag["back"])
+        return r
+    if b1 == b2:
+        return False
+    return b2 not in fwd(b1) and b1 not in fwd(b2)
+
